@@ -102,6 +102,10 @@ def attribute(f):
         p |= {"C03", "C05"} if ev != "Read" else {"C04", "C05"}
     if rules & {"FailedDetached"}:
         p |= {"C02", "C05"}
+        if ev == "Read":
+            p.add("C04")
+    if ev == "Read" and rules & {"Replicas", "Result", "Touched"}:
+        p.add("C04")
     if rules & {"ReadData", "ReadFresh", "ReadersAreRW"}:
         p.add("C04")
     if rules & {"Signals", "SignalAfterMajority", "SignalsMax"}:
